@@ -70,4 +70,8 @@ def main(args):
         from . import mutants
 
         ok = mutants.run(props if args.props else None, runs=args.runs, names=[n for n in args.names.split(',') if n] or None) and ok
+    if args.what in ("seeded",):
+        from . import mutants
+
+        ok = mutants.run_seeded(names=[n for n in args.names.split(',') if n] or None, runs=args.runs) and ok
     return 0 if ok else 2
